@@ -1,3 +1,89 @@
-From Sonic Require Import Base.Prelude Model.WsStream.
-Theorem C08_placeholder : True. Proof. exact I. Qed.
-Print Assumptions C08_placeholder.
+(* C08 -- ping/pong and the closing handshake follow the RFC 6455 state machine.
+   Model/WsStream.v mirrors /repo/codec/websocket/stream.go (client role, after the handshake): handleFrame,
+   handleControlFrame, Write*, Close/AsyncClose, Flush/AsyncFlush, NextFrame/AsyncNextFrame, NextMessage/asyncNextMessage,
+   over the frame codec model and a scripted transport; w_log is a ghost log of every frame queued for the wire.
+   Spec/WsSession.v is the independent RFC view that, extracted, judges the implementation's traces. *)
+From Sonic Require Import Base.Prelude Gen.Consts Model.WsFrame Model.WsStream Model.Utf8 Gen.Preds Model.Transport
+  Proofs.WsStreamProofs.
+Local Open Scope Z_scope.
+
+(* For EVERY sequence (any length) of peer events and local calls from any state satisfying the invariant (the fresh
+   stream does): at most one Close frame is ever queued for the wire, nothing is queued after it, and none while the
+   session is still Active. *)
+Theorem C08_one_close_ever : forall ops s, Forall wf_op ops -> log_inv s -> log_inv (wsrun s ops).
+Proof. exact one_close_ever. Qed.
+Print Assumptions C08_one_close_ever.
+
+(* On a healthy transport the wire is, in order and frame by frame, a prefix of what was queued; the rest is still
+   queued in the same order (so a Pong is sent ahead of any application frame submitted later, and with
+   C08_one_close_ever: no second Close and no data frame after the Close reaches the wire). *)
+Theorem C08_wire_is_queue_order : forall ops s, Forall healthy_op ops -> wire_inv s -> wire_inv (wsrun s ops).
+Proof. exact wire_is_log_prefix. Qed.
+Print Assumptions C08_wire_is_queue_order.
+
+Theorem C08_fresh_stream_satisfies_invariants : forall max keys, log_inv (ws_init max keys) /\ wire_inv (ws_init max keys).
+Proof. intros. split; [apply init_inv|apply init_wire]. Qed.
+Print Assumptions C08_fresh_stream_satisfies_invariants.
+
+Theorem C08_ping_answered_by_one_pong_same_payload : forall s f,
+  w_state s = ws_StateActive -> is_fin f = true -> payload_length f <= ws_MaxControlFramePayloadLength ->
+  opcode_of f = ws_OpcodePing ->
+  exists s', handle_control s f = (s', eNone) /\ w_state s' = ws_StateActive /\
+             exists key, w_log s' = w_log s ++ [(true, ws_OpcodePong, payload_of f, key)].
+Proof. exact ping_queues_pong. Qed.
+Print Assumptions C08_ping_answered_by_one_pong_same_payload.
+
+Theorem C08_pong_not_answered : forall s f,
+  is_fin f = true -> payload_length f <= ws_MaxControlFramePayloadLength -> opcode_of f = ws_OpcodePong ->
+  handle_control s f = (s, eNone).
+Proof. exact pong_queues_nothing. Qed.
+Print Assumptions C08_pong_not_answered.
+
+Theorem C08_peer_close_answered_once : forall s f,
+  w_state s = ws_StateActive -> is_fin f = true -> payload_length f <= ws_MaxControlFramePayloadLength ->
+  opcode_of f = ws_OpcodeClose ->
+  exists s', handle_control s f = (s', eNone) /\ w_state s' = ws_StateClosedByPeer /\
+             exists key, w_log s' = w_log s ++ [(true, ws_OpcodeClose, close_reply_payload (payload_of f), key)].
+Proof. exact peer_close_is_answered_once. Qed.
+Print Assumptions C08_peer_close_answered_once.
+
+Theorem C08_after_close_reads_report_eof : forall s,
+  wire_inv s -> can_read s = false ->
+  exists s', next_frame_gen false s = (s', FGot [] eEOF) /\ w_state s' = w_state s.
+Proof. exact read_after_close_is_eof. Qed.
+Print Assumptions C08_after_close_reads_report_eof.
+
+Theorem C08_writes_refused_when_not_active : forall s async mt payload,
+  w_state s <> ws_StateActive -> zlen payload <= w_max s ->
+  wsstep s (WWrite async mt payload) = (s, [EWrite eCancelled]).
+Proof. exact write_refused_when_not_active. Qed.
+Print Assumptions C08_writes_refused_when_not_active.
+
+Theorem C08_local_close : forall s async code reason s' e,
+  w_state s = ws_StateActive -> do_close async s code reason = (s', e) ->
+  w_state s' = ws_StateClosedByUs /\ exists key, w_log s' = w_log s ++ [(true, ws_OpcodeClose, close_payload code reason, key)].
+Proof. exact local_close. Qed.
+Print Assumptions C08_local_close.
+
+Theorem C08_close_acknowledged : forall s f,
+  w_state s = ws_StateClosedByUs -> is_fin f = true -> payload_length f <= ws_MaxControlFramePayloadLength ->
+  opcode_of f = ws_OpcodeClose -> handle_control s f = (set_state s ws_StateCloseAcked, eNone).
+Proof. exact close_ack. Qed.
+Print Assumptions C08_close_acknowledged.
+
+Theorem C08_abnormal_closure_1006 : forall s,
+  w_state s <> ws_StateTerminated ->
+  after_read s (RdErr eEOF) = (set_state s ws_StateTerminated, FGot abnormal_frame eEOF) /\
+  payload_of abnormal_frame = be_bytes 2 ws_CloseAbnormal /\ opcode_of abnormal_frame = ws_OpcodeClose.
+Proof. exact abnormal_closure. Qed.
+Print Assumptions C08_abnormal_closure_1006.
+
+(* Non-vacuity: ping, application write, peer close, reads, a violation after our own close. *)
+Example C08_demo :
+  let s0 := ws_init 1024 [[1;2;3;4]; [5;6;7;8]; [9;10;11;12]] in
+  let ops := [WIn (InData [137; 1; 7]); WNextFrame; WWrite false 2 [65]; WIn (InData [136; 2; 3; 232]); WNextFrame; WNextFrame;
+              WWrite false 1 [66]] in
+  Forall wf_op ops /\ Forall healthy_op ops /\
+  let s := wsrun s0 ops in
+  w_state s = ws_StateClosedByPeer /\ map (fun e => e_op e) (w_log s) = [10; 2; 8] /\ w_pending s = [].
+Proof. vm_compute. repeat split; repeat constructor; discriminate. Qed.
